@@ -415,7 +415,7 @@ OBLIGATIONS = {
 def _family(tier: str, seed: int) -> List[Any]:
     if tier == "quick":
         return skeletons.gen(4, 3, limit=24, seed=seed)
-    return skeletons.gen(5, 3, limit=400, seed=seed)
+    return skeletons.gen(5, 3, limit=120, seed=seed)
 
 
 def _alphabet(spec: Any) -> str:
@@ -457,7 +457,8 @@ def items(tier: str, seed: int) -> List[Dict[str, Any]]:
     for sid, spec in fam:
         out.append({"ob": "step_node", "params": {"sid": sid, "spec": spec}, "timeout": 150 if quick else 300,
                     "label": f"step_node[{sid}]"})
-    for sid, spec in (cur if not quick else [(k, v) for k, v in cur if k in ("CUR2", "CUR4", "CUR10")]):
+    abort_skels = ("CUR2", "CUR4", "CUR10") if quick else ("CUR2", "CUR3", "CUR4", "CUR5", "CUR7", "CUR10", "CUR15", "CUR16")
+    for sid, spec in [(k, v) for k, v in cur if k in abort_skels]:
         n = _count_nodes(spec)
         for t in range(n):
             for wh in (0, 1):
@@ -467,10 +468,10 @@ def items(tier: str, seed: int) -> List[Dict[str, Any]]:
     for sid in str_skels:
         spec = skeletons.CURATED[sid]
         n = _count_nodes(spec)
-        srcs = range(n) if not quick else _spread(n)
+        srcs = _spread(n) if quick or sid not in ("CUR2", "CUR8", "CUR9", "CUR15") else range(n)
         for s in srcs:
             # '#alpha' / '#beta' custom ids of CUR8 need 5-6 characters
-            L = (5 if sid == "CUR8" else 4) if quick else (7 if sid == "CUR8" else 6)
+            L = (5 if sid == "CUR8" else 4) if quick else (6 if sid == "CUR8" else 5)
             if s == 0 and not quick:
                 L -= 1  # the root as source resolves the most spellings
             out.append({"ob": "step_string", "params": {"sid": sid, "spec": spec, "maxlen": L, "src": s},
